@@ -68,7 +68,7 @@ class TState:
 
 
 class Scheduler:
-    def __init__(self, chooser=None, max_steps=20000, tick_prob=0.0):
+    def __init__(self, chooser=None, max_steps=20000, tick_prob=0.0, drain_steps=0):
         self.threads: list[TState] = []
         self.back = _rt.Semaphore(0)
         self.clock = 1000.0
@@ -84,6 +84,8 @@ class Scheduler:
         self.choices: list[tuple] = []     # (ready names, chosen name) per decision
         self.names: dict[str, int] = {}
         self.alive_after: list[str] = []
+        self.blocked_after: list[tuple] = []
+        self.drain_steps = drain_steps     # after the clients finished, keep running READY library threads this many steps
         global CUR
         CUR = self
 
@@ -125,7 +127,9 @@ class Scheduler:
 
     def log(self, *ev):
         t = self.me()
-        self.events.append((t.name if t else "main",) + ev)
+        name = t.name if t else "main"
+        self.events.append((name,) + ev)
+        self.trace.append((name, "@log") + ev)
 
     # ---- spawning
     def spawn(self, name, fn, role="client"):
@@ -157,14 +161,21 @@ class Scheduler:
         global CUR
         CUR = self
         try:
+            drained = 0
             while True:
                 clients = [t for t in self.threads if t.role == "client"]
-                if all(t.done for t in clients):
-                    break
+                clients_done = all(t.done for t in clients)
                 ready = [t for t in self.threads if t.ready()]
+                if clients_done:
+                    # fairness: let library threads that can run do so (no clock advance), up to drain_steps
+                    if not ready or drained >= self.drain_steps:
+                        break
+                    drained += 1
                 timers = [t.deadline for t in self.threads if not t.done and t.started and t.deadline is not None
                           and not t.ready()]
                 if not ready:
+                    if clients_done:
+                        break
                     if timers:
                         self.clock = min(timers)
                         self.trace.append(("<clock>", f"advance to {self.clock - 1000.0:.3f}"))
@@ -176,7 +187,7 @@ class Scheduler:
                     self.livelock = True
                     break
                 opts = [t.name for t in ready]
-                can_tick = bool(timers)
+                can_tick = bool(timers) and not clients_done
                 pick = self.chooser.choose(self, ready, can_tick)
                 if pick is None:        # advance the clock although somebody could run
                     self.clock = min(timers)
@@ -192,6 +203,9 @@ class Scheduler:
                 self.back.acquire()
         finally:
             self.alive_after = [t.name for t in self.threads if not t.done and t.started]
+            # blocked with no time-out pending (a thread in a timed wait/sleep is not blocked forever)
+            self.blocked_after = [(t.name, t.label) for t in self.threads
+                                  if not t.done and t.started and not t.ready() and t.deadline is None]
             self.kill()
             CUR = None
         return self
